@@ -1,3 +1,3 @@
 SPECIFICATION Spec
-INVARIANTS TimeOnlyWhenUsable ExpiredNeedsUsableToken UnusableNeverRescues
+INVARIANTS TimeOnlyWhenUsable ExpiredNeedsUsableToken UnusableNeverRescues TokenTimeBinds TimeJudgesBothWays
 CHECK_DEADLOCK FALSE
